@@ -131,6 +131,7 @@ def convert(raw: list[dict[str, Any]], sc: dict[str, Any]) -> list[dict[str, Any
     announced = False
     streaming: dict[str, bool] = {}        # per namespace: the stream of the handled resource = its listing followed by watch requests
     wns: dict[int, str] = {}
+    live_daemons: set[Any] = set()
     for e in raw:
         ev = e['ev']; t = e['t']
         if e.get('loop') not in (OP, None) and ev != 'srv.watch.end':
@@ -141,6 +142,11 @@ def convert(raw: list[dict[str, Any]], sc: dict[str, Any]) -> list[dict[str, Any
             out.append({'ev': 'sh', 't': t, 'h': int(e['id'][1:]), 'out': {'ok': 'ok', 'temp': 'temp'}.get(e['outcome'], 'perm')})
         elif ev == 'h.exit' and e.get('kind') == 'cleanup':
             out.append({'ev': 'ch', 't': t, 'h': int(e['id'][1:]), 'out': {'ok': 'ok', 'temp': 'temp'}.get(e['outcome'], 'perm')})
+        elif ev == 'h.enter' and e.get('id') == 'see' and e.get('type') == 'DELETED' and e.get('name') in live_daemons:
+            # the DELETED event of an object whose daemon is running is being processed: its memory has just been forgotten
+            out.append({'ev': 'orphan', 't': t})
+            if sc.get('hdur'):
+                out.append({'ev': 'hstart', 't': t})
         elif ev == 'h.enter' and e.get('id') == 'see' and sc.get('hdur'):
             out.append({'ev': 'hstart', 't': t})
         elif ev == 'h.exit' and e.get('id') == 'see' and sc.get('hdur'):
@@ -167,8 +173,10 @@ def convert(raw: list[dict[str, Any]], sc: dict[str, Any]) -> list[dict[str, Any
             out.append({'ev': 'wopen', 't': t, 'ns': e.get('ns') or '*'})
         elif ev == 'sched.close' and e.get('sched') in wns:
             out.append({'ev': 'wclose', 't': t, 'ns': wns.pop(e['sched'])})
-        elif ev == 'd.start': out.append({'ev': 'dstart', 't': t})
-        elif ev == 'd.exit': out.append({'ev': 'dexit', 't': t})
+        elif ev == 'd.start':
+            out.append({'ev': 'dstart', 't': t}); live_daemons.add(e.get('name'))
+        elif ev == 'd.exit':
+            out.append({'ev': 'dexit', 't': t}); live_daemons.discard(e.get('name'))
         elif ev == 'op.stop': out.append({'ev': 'stop', 't': t})
         elif ev == 'op.cancel': out.append({'ev': 'cancel', 't': t})
         elif ev == 'env.fault': out.append({'ev': 'fault', 't': t, 'task': e['task'], 'kind': e['kind']})
